@@ -249,3 +249,65 @@ func (x *runner) dMalformed(s sreq, name string) {
 	sig := "C14 malformed tunnelled request not rejected with 400: " + name
 	x.r.OracleFail(hx.Case{Sig: sig, Op: op, Impl: impl, Expected: "400, resource not invoked"})
 }
+
+// dPending: several requests are built before any of them is sent (requests prepared up front,
+// retries, concurrent callers); each must still carry its own query and body when it is finally
+// sent — i.e. behave exactly like the same request built and sent alone.
+func (x *runner) dPending(t int, path string, queries []string, httpMethod, restliMethod string, bodies [][]byte) {
+	type built struct {
+		req *http.Request
+		err error
+	}
+	reqs := make([]built, len(queries))
+	p, pv := hx.Recover(func() {
+		for i := range queries {
+			q := queries[i]
+			reqs[i].req, reqs[i].err = buildClientRequest(t, path, &q, httpMethod, restliMethod, bodies[i])
+		}
+	})
+	op := fmt.Sprintf("pending %s %d %s %s %s n=%d", x.cfg.Module, t, hb(path), hb(httpMethod), hb(restliMethod), len(queries))
+	for i := range queries {
+		op += " " + hb(queries[i]) + "/" + bodyArg(bodies[i])
+	}
+	x.r.OracleCases++
+	x.r.Distinctive(op)
+	if p {
+		x.r.OracleFail(hx.Case{Sig: "C14 building several requests up front panicked", Op: op, Impl: fmt.Sprint(pv)})
+		return
+	}
+	for i := range queries {
+		q := queries[i]
+		alone := x.runE2E(t, path, &q, httpMethod, restliMethod, bodies[i])
+		if reqs[i].err != nil || alone.err != "" {
+			continue
+		}
+		var got e2e
+		pp, ppv := hx.Recover(func() {
+			sr, err := overWire(reqs[i].req)
+			if err != nil {
+				got.err = "wire: " + err.Error()
+				return
+			}
+			data, _ := io.ReadAll(sr.Body)
+			got.wire = sr.Method + " " + sr.RequestURI + " " + renderHdr(restrictHeaders(sr.Header)) + " " + hx.Hex(data)
+			if len(data) == 0 {
+				sr.Body = http.NoBody
+			} else {
+				sr.Body = io.NopCloser(bytes.NewReader(data))
+			}
+			res := x.srv.serve(sr)
+			got.status, got.invoked, got.seen = res.status, res.invoked, res.seen
+		})
+		if pp {
+			got.err = fmt.Sprint("panic: ", ppv)
+		}
+		gotS := fmt.Sprintf("%s %d %v %s", got.err, got.status, got.invoked, seenSummary(got.seen))
+		wantS := fmt.Sprintf("%s %d %v %s", alone.err, alone.status, alone.invoked, seenSummary(alone.seen))
+		// multipart boundaries are random: compare what the server saw, not the raw wire bytes
+		if gotS != wantS {
+			x.r.OracleFail(hx.Case{Sig: "C14 a request built while others were pending differs from the same request built and sent alone", Op: op, Impl: fmt.Sprintf("#%d: %s", i, gotS), Expected: wantS})
+			return
+		}
+	}
+	x.r.Count("D:pending-batch")
+}
